@@ -11,7 +11,7 @@ def escOut (s : String) : String :=
     if c == '\\' then acc ++ "\\\\" else if c == '\n' then acc ++ "\\n"
     else if c == '\t' then acc ++ "\\t" else if c == '\r' then acc ++ "\\r" else acc.push c) ""
 
-def runLine (fuel : Nat) (l : String) : String :=
+def runLine (fuel : Nat) (l : String) (capPolicy : Nat := 0) (eager : Bool := true) : String :=
   let (id, rest) := splitTab l
   match Sexp.parse rest with
   | some sx =>
@@ -19,13 +19,13 @@ def runLine (fuel : Nat) (l : String) : String :=
     | .list (.atom "gofile" :: _) =>
       match decGFile sx with
       | some F =>
-        let o := Goml.Go.runGo fuel F
+        let o := Goml.Go.runGo fuel F "main" eager capPolicy
         s!"{id}\t{o.status}\t{escOut o.out}\t{" ".intercalate o.externs}"
       | none => s!"{id}\tdecode-error\t\t"
     | _ =>
     match decProg sx with
     | some P =>
-      let o := run fuel P
+      let o := run fuel P (eager := eager)
       s!"{id}\t{o.status}\t{escOut o.out}\t{" ".intercalate o.externs}"
     | none => s!"{id}\tdecode-error\t\t"
   | none => s!"{id}\tparse-error\t\t"
@@ -33,6 +33,9 @@ def runLine (fuel : Nat) (l : String) : String :=
 def main : IO Unit := do
   let stdin ← IO.getStdin
   let fuel := (← IO.getEnv "GV_FUEL").bind String.toNat? |>.getD 20000000
-  forEachLine stdin fun l => IO.println (runLine fuel l)
+  let cap := (← IO.getEnv "GV_CAP").bind String.toNat? |>.getD 0
+  -- schedule for `go`: GV_EAGER=0 never runs a spawned activation (the spawner finishes first)
+  let eager := (← IO.getEnv "GV_EAGER") != some "0"
+  forEachLine stdin fun l => IO.println (runLine fuel l cap eager)
 
 end Goml.Driver.SemRun
